@@ -386,8 +386,8 @@ theorem leaf_no_defer : ∀ (b : List Stmt), b.all isLeafStmt = true → b.any S
     simp only [List.any_cons, ih h.2, Bool.or_false]
     cases a <;> simp_all [isLeafStmt, Stmt.isDefer]
 
-theorem rDefers_nil (P : Prog) (k : Nat) (mode : RComp) (base : Nat) (fr : RFrame) (st : RState)
-    (hm : mode ≠ .oof) (hd : fr.defers = []) : rDefers (k + 1) P mode base fr st = ⟨mode, fr, st⟩ := by
+theorem rDefers_nil (P : Prog) (k : Nat) (mode : RComp) (base : Nat) (byP : Bool) (fr : RFrame) (st : RState)
+    (hm : mode ≠ .oof) (hd : fr.defers = []) : rDefers (k + 1) P mode base byP fr st = ⟨mode, fr, st⟩ := by
   cases mode <;> simp_all [rDefers]
 
 /-- `defer_refines` restricted to goroutine functions that are a single frame (no call, no defer statement):
